@@ -250,6 +250,15 @@ func VH_C13_Exp2Domain() {
 	vAssume(e.Sign() < 0 || e.Cmp(max) > 0)
 	vReach("reach")
 	vAssert(vPanics(func() { Exp2(BigDec{i: new(big.Int).Set(e)}) }), "Exp2:panics-outside-[0,2^9]")
+	// exponents just above the maximum: integer part 512..515 (case split), symbolic fraction
+	k := int64(512 + vChoose("near_int", 4))
+	nf := vNondetBigRange("near_frac", big.NewInt(0), new(big.Int).Sub(c13S, big.NewInt(1)))
+	near := new(big.Int).Add(new(big.Int).Mul(big.NewInt(k), c13S), nf)
+	vAssume(near.Cmp(max) > 0)
+	vConfig("unwind", 10)
+	vConfig("lazy", 1)
+	vAssert(vPanics(func() { Exp2(BigDec{i: new(big.Int).Set(near)}) }), "Exp2:panics-just-above-2^9")
+	vConfig("lazy", 0)
 	x := c13Sym("x", 400, true)
 	vAssume(x.Sign() < 0 || x.Cmp(c13S) > 0)
 	vAssert(vPanics(func() { exp2ChebyshevRationalApprox(BigDec{i: new(big.Int).Set(x)}) }), "approx:panics-outside-[0,1]")
@@ -326,6 +335,29 @@ func VH_C13_PowStructure() {
 			vAssert(got.BigIntMut().Cmp(want.BigIntMut()) == 0, "integer-times-fractional")
 		}
 		vAssert(base.BigIntMut().Cmp(b) == 0, "base-untouched")
+	}
+	vOverride("github.com/osmosis-labs/osmosis/osmomath.PowApprox", nil)
+}
+
+// Pow on concrete (base, exponent) points that include the implementation's special constants (exponent fraction
+// exactly one half, integer exponents), with the fractional approximation still an arbitrary symbolic value:
+// the result must be base^n * PowApprox(base, frac) whatever PowApprox returns.
+func VH_C13_PowPoints() {
+	pts := [][2]string{{"1.5", "1.5"}, {"0.5", "2.5"}, {"1.000000000000000001", "3.5"}, {"1.999999999999999999", "0.5"}, {"0.7", "2"}, {"1.3", "1.25"}}
+	c13PowStubOut = vNondetBigRange("powapprox", new(big.Int), new(big.Int).Mul(big.NewInt(4), c13T))
+	vOverride("github.com/osmosis-labs/osmosis/osmomath.PowApprox", c13PowApproxStub)
+	vConfig("unwind", 400)
+	vReach("reach")
+	for _, pt := range pts {
+		base, exp := MustNewDecFromStr(pt[0]), MustNewDecFromStr(pt[1])
+		got := Pow(base.Clone(), exp.Clone())
+		n := exp.TruncateInt64()
+		frac := exp.Sub(exp.TruncateDec())
+		want := base.Power(uint64(n))
+		if !frac.IsZero() {
+			want = want.Mul(PowApprox(base.Clone(), frac, GetPowPrecision()))
+		}
+		vAssert(got.BigIntMut().Cmp(want.BigIntMut()) == 0, "point:"+pt[0]+"^"+pt[1])
 	}
 	vOverride("github.com/osmosis-labs/osmosis/osmomath.PowApprox", nil)
 }
